@@ -85,9 +85,10 @@ func verifRewriteSame(a, b *DNSRewrite) bool {
 	return false
 }
 
-// verifDecimal16: s is a decimal number below 65536 written with digits only; returns its value.
+// verifDecimal16: s is a decimal number below 65536 written with digits only (leading zeros
+// are digits too); returns its value.
 func verifDecimal16(s string) (uint16, bool) {
-	if len(s) == 0 || len(s) > 5 {
+	if len(s) == 0 {
 		return 0, false
 	}
 	v := 0
@@ -97,8 +98,13 @@ func verifDecimal16(s string) (uint16, bool) {
 			ok = false
 		}
 		v = v*10 + int(s[i]-'0')
+		if v > 65535 {
+			// saturate: the number is out of range whatever follows
+			ok = false
+			v = 65536
+		}
 	}
-	if !ok || v > 65535 {
+	if !ok {
 		return 0, false
 	}
 	return uint16(v), true
